@@ -1532,7 +1532,7 @@ DEFAULT_SWITCHES = {"error_bars": True, "residuals": False, "legend": False}
 
 
 def gen_session(rng):
-    k = rng.choice([2, 2, 3])
+    k = rng.choice([1, 2, 2, 3])
     plots, seqs = [], []
     for _ in range(k):
         sc = gen_script(rng, rng.choice(["mixed", "mixed", "fit", "labels", "hist"]))
@@ -1571,8 +1571,24 @@ def gen_session(rng):
                 at = ops.index(["add", j])
                 ops.insert(rng.randint(at + 1, len(ops)), ["mutate", j])
         ops.append(["render"])
+        # switches TOGGLED between two renderings of the same Plot object: the next rendering must show the new state
+        # (residual panel present / absent with the fit's residuals, error bars, legend), not a figure set up earlier
+        cur = dict(DEFAULT_SWITCHES)
+        for op in ops:
+            if op[0] == "switch":
+                cur[op[1]] = op[2]
+        has_fit = any(o["kind"] in ("fit", "plotfit") for o in objs)
+        for _ in range(rng.choice([0, 1, 1, 2])):
+            names = ["residuals"] if (has_fit or rng.random() < 0.4) and rng.random() < 0.8 else []
+            names += [n for n in rng.sample(["error_bars", "legend", "residuals"], rng.randint(0, 2)) if n not in names]
+            if not names:
+                names = ["residuals"]
+            for name in names:
+                cur[name] = not cur[name]
+                ops.append(["switch", name, cur[name]])
+            ops.append(["render"])
         seqs.append(ops)
-    if rng.random() < 0.35:            # the SAME XYDataSet object drawn on two plots (with different x-ranges)
+    if k >= 2 and rng.random() < 0.35:  # the SAME XYDataSet object drawn on two plots (with different x-ranges)
         src = [(i, o) for i in range(k) for o in plots[i]["objects"] if o["kind"] == "data" and o["form"] == "dataset"
                and not o.get("mutate")]
         if src:
@@ -1656,7 +1672,8 @@ def execute_session(sess):
                 obs = {"status": "ok", "returned": list(returned[i])}
                 st = dict(tracked[i])
                 aux = observe_plot(plots[i], list(specs[i]), st, handles[i], obs)
-                plt.close("all")
+                # the figures stay open until the session ends (a later rendering of the same plot must not depend on
+                # whether the earlier figure still exists)
                 out.append({"plot": i, "step": n, "script": {"seed": sess["seed"], "objects": list(specs[i]), "settings": st,
                                                              "kind": "session", "scale": sess["plots"][i].get("scale", 1.0)},
                             "order": list(range(len(specs[i]))), "run": {"obs": obs, "aux": aux}})
